@@ -357,13 +357,13 @@ fn search_key_part(ctx: &Ctx) -> Stats {
 pub fn run(ctx: &Ctx) -> i32 {
     let spec = Spec {
         level: "exploration",
-        rule: "cases are (key set, position) pairs: for every key set drawn (ZobristTable::new(), fresh random keys) and every generated position the hash of the board played in place must equal the hash of the board rebuilt from FEN with different move counters and the hash of the board reached through a transposed move order; every valid single-component variation (remove/recolour/retype/relocate/add one piece, flip side, toggle each castling right, ep none/file/other file with a legal capture) must hash differently; no two distinct positions of the run may collide under one key set; neighbourhood probe: for three base positions per key set the COMPLETE one-component neighbourhood (every square set to every piece or emptied, kings relocated, side, each right, every en-passant target with a legal capture) is hashed and all members must differ pairwise, which exposes any two features sharing a key; search-key audit: after a depth 2..4 search on a fresh engine (promotion, en-passant, castling studies, few-men and game positions) every key in the transposition table must be the from-scratch hash of the root or of a position the search's node logs recorded, so a key carried incrementally down the tree that disagrees with the hash of the board (i.e. depends on the path) shows. Distinct by (key set index, position); non-trivial = all",
+        rule: "cases are (key set, position) pairs: for every key set drawn (ZobristTable::new(), fresh random keys) and every generated position the hash of the board played in place must equal the hash of the board rebuilt from FEN with different move counters and the hash of the board reached through a transposed move order; every valid single-component variation (remove/recolour/retype/relocate/add one piece, flip side, toggle each castling right, ep none/file/other file with a legal capture) must hash differently; no two distinct positions of the run may collide under one key set; the first board a key set is asked about is the last one the previous key set on the same thread was asked about, and its hash is asked again at the end of the key set (it must not depend on the call history); neighbourhood probe: for three base positions per key set the COMPLETE one-component neighbourhood (every square set to every piece or emptied, kings relocated, side, each right, every en-passant target with a legal capture) is hashed and all members must differ pairwise, which exposes any two features sharing a key; search-key audit: after a depth 2..4 search on a fresh engine (promotion, en-passant, castling studies, few-men and game positions) every key in the transposition table must be the from-scratch hash of the root or of a position the search's node logs recorded, so a key carried incrementally down the tree that disagrees with the hash of the board (i.e. depends on the path) shows. Distinct by (key set index, position); non-trivial = all",
         assumptions: vec![
             "64-bit random keys: a spurious equality between two different positions has probability < 1e-12 per run and is accepted".into(),
             "key sets not drawn in this run are not covered; each run draws fresh ones from the engine's own generator".into(),
             "rules oracle validated by perft at start".into(),
         ],
-        required: if ctx.replay.is_some() { vec![] } else { vec!["same_inplace_vs_fen", "same_transposition", "diff_remove_piece", "diff_exchange_two_squares", "diff_flip_side_to_move", "diff_toggle_white_kingside", "diff_toggle_black_queenside", "diff_ep_none_vs_file", "diff_ep_file_vs_other_file", "key_sets", "neighbourhood_probes", "neighbourhood_members_with_en_passant_target", "search_key_audits", "search_key_audits_with_a_capturing_promotion_near_the_root", "search_key_audits_of_positions_with_an_en_passant_target", "search_key_audits_of_positions_with_castling_rights"] },
+        required: if ctx.replay.is_some() { vec![] } else { vec!["same_inplace_vs_fen", "same_transposition", "diff_remove_piece", "diff_exchange_two_squares", "diff_flip_side_to_move", "diff_toggle_white_kingside", "diff_toggle_black_queenside", "diff_ep_none_vs_file", "diff_ep_file_vs_other_file", "key_sets", "first_board_of_a_key_set_was_the_last_board_of_the_previous_one", "neighbourhood_probes", "neighbourhood_members_with_en_passant_target", "search_key_audits", "search_key_audits_with_a_capturing_promotion_near_the_root", "search_key_audits_of_positions_with_an_en_passant_target", "search_key_audits_of_positions_with_castling_rights"] },
         exhaustive: false,
         extra: vec![],
     };
@@ -385,6 +385,7 @@ pub fn run(ctx: &Ctx) -> i32 {
         let mut st = Stats::new();
         let mut rng = Rng::new(ctx.seed, 200 + w as u64);
         let mg = MoveGenerator::new();
+        let mut last_hashed: Option<Pos> = None;
         for ks in 0..per_worker {
             if ctx.out_of_time() {
                 break;
@@ -392,6 +393,13 @@ pub fn run(ctx: &Ctx) -> i32 {
             let z = ZobristTable::new();
             st.bump("key_sets");
             let ksid = (w as u64) << 32 | ks;
+            // the very first board this key set is asked about is the very last one the previous key set
+            // (same thread) was asked about — as after ucinewgame when the new game starts where the old
+            // search stood; its hash is asked again at the end of the key set and must not have changed
+            let carried: Option<(Pos, u64)> = last_hashed.take().map(|p: Pos| {
+                let h = z.hash(&eng::board_from_pos(&p));
+                (p, h)
+            });
             let mut seen: HashMap<u64, PosKey> = HashMap::new();
             let mut n = 0;
             if let Some(c) = ctx.replay.as_ref().and_then(|r| r.get("case")).filter(|c| c.str_of("kind") == "neighbourhood") {
@@ -528,6 +536,23 @@ pub fn run(ctx: &Ctx) -> i32 {
                 }
             }
             st.add("positions_hashed", seen.len() as u64);
+            if ctx.replay.is_none() {
+                if let Some((p, h0)) = carried {
+                    st.bump("first_board_of_a_key_set_was_the_last_board_of_the_previous_one");
+                    let h1 = z.hash(&eng::board_from_pos(&p));
+                    if h0 != h1 {
+                        st.violation(
+                            format!("C11:same-differs:call-history:{}", p.to_fen()),
+                            format!("one key set gives {} two hashes: {:#x} when it was the first board asked about (right after another key set had been asked about it) and {:#x} later", p.to_fen(), h0, h1),
+                            J::obj(vec![("start", J::s(p.to_fen())), ("moves", J::arr_s(Vec::<String>::new())), ("position", J::s(p.to_fen()))]),
+                        );
+                    }
+                }
+                // the last board this key set is asked about
+                let p = gen::g_game_pos(&mut rng);
+                let _ = z.hash(&eng::board_from_pos(&p));
+                last_hashed = Some(p);
+            }
         }
         st
     });
